@@ -783,3 +783,54 @@ def truncations(raw, draw, cap=40):
     pts = set(draw(st.lists(st.integers(0, n - 1), min_size=cap, max_size=cap)))
     pts |= {0, n - 1}
     return sorted(pts)
+
+
+# ---------------------------------------------------------------------------------------- explicit layouts
+
+@st.composite
+def layout_families(draw):
+    """packets whose fields are ALL placed explicitly with at(), declared in a shuffled order: out-of-order layouts with holes,
+    fields at position 0 declared last, zero-size fields inside other fields' spans and (sometimes) overlaps"""
+    nf = draw(st.integers(2, 5))
+    nested = draw(st.booleans())
+    ref = draw(st.sampled_from(["innermost-pkt", "innermost-pkt", "begins"])) if not nested else "innermost-pkt"
+    items, cur = [], 0
+    ctl = []
+    for i in range(nf):
+        size = draw(st.sampled_from([0, 1, 1, 2, 2, 3, 4]))
+        gap = draw(st.sampled_from([0, 0, 1, 2, 3]))
+        pos = cur + gap
+        if i and chance(draw, 0.2):
+            pos = max(0, cur - draw(st.integers(1, 3)))      # overlap with (or nest into) the previous field
+        items.append([pos, size])
+        cur = max(cur, pos + size)
+    form_of = [draw(st.sampled_from(["const", "const", "field", "call"])) for _ in items]
+    nctl = sum(1 for f in form_of if f in ("field", "call"))
+    fields = []
+    k = 0
+    placed = []
+    for i, ((pos, size), form) in enumerate(zip(items, form_of)):
+        pos += nctl        # controls sit at the very beginning, one byte each
+        if size == 0 or draw(st.booleans()):
+            f = {"k": "data", "name": "d%d" % i, "size": ["const", size], "incl": False}
+        else:
+            f = {"k": "int", "name": "d%d" % i, "n": size, "signed": False, "endian": draw(st.sampled_from([None, "little"]))}
+        if form == "const":
+            arg = ["const", pos]
+        else:
+            cname = "c%d" % k
+            k += 1
+            base = draw(st.integers(0, pos)) if form == "call" else 0
+            ctl.append({"k": "int", "name": cname, "n": 1, "signed": False, "endian": None, "ctl": True, "ctl_keys": [pos - base]})
+            arg = ["field", cname] if form == "field" else ["call", ["bin", "add", ["f", cname], ["c", base]]]
+        f["move"] = {"kind": "at", "arg": arg, "ref": ref}
+        placed.append(f)
+    order = draw(st.permutations(placed))
+    fields = ctl + list(order)
+    if chance(draw, 0.3):
+        fields.append({"k": "int", "name": "tail", "n": 1, "signed": False, "endian": None})
+    pkts = [{"name": "P0", "opts": {}, "fields": fields}]
+    if nested:
+        pkts.append({"name": "P1", "opts": {}, "fields": [{"k": "data", "name": "pre", "size": ["const", draw(st.integers(0, 3))], "incl": False},
+                                                           {"k": "ref", "name": "sub", "to": "P0"}]})
+    return {"pkts": pkts}
